@@ -619,7 +619,7 @@ func (g *c18Gen) specForW(bodies []*gen.Body, kinds map[string]int) hcldec.Spec 
 		}
 		if maxPer[ty] <= 1 {
 			opts = append(opts, "single")
-			if nl == 0 && onlyAttrs[ty] {
+			if nl == 0 && onlyAttrs[ty] && !c18NoAttrsKind {
 				opts = append(opts, "attrs")
 			}
 		}
@@ -640,10 +640,15 @@ func (g *c18Gen) specForW(bodies []*gen.Body, kinds map[string]int) hcldec.Spec 
 	return obj
 }
 
+// c18NoAttrsKind keeps BlockAttrsSpec out of generated specs (set by C07, which
+// pins that kind with a directed case: adjudicated finding).
+var c18NoAttrsKind bool
+
 type c18Prog struct {
-	dsrc string
-	spec hcldec.Spec
-	sc   *gen.Scope
+	dsrc  string
+	spec  hcldec.Spec
+	sc    *gen.Scope
+	kinds map[string]int
 }
 
 // c18Build generates one body with dynamic blocks and a spec for it (used by C17).
@@ -670,7 +675,8 @@ func c18Build(r *rand.Rand) *c18Prog {
 	if smsg != "" {
 		return nil
 	}
-	return &c18Prog{dsrc: dsb.String(), spec: g.specForW([]*gen.Body{wbody, shape}, map[string]int{}), sc: sc}
+	kinds := map[string]int{}
+	return &c18Prog{dsrc: dsb.String(), spec: g.specForW([]*gen.Body{wbody, shape}, kinds), sc: sc, kinds: kinds}
 }
 
 // knownLeaf finds a known, non-null primitive under v that does not come from a
